@@ -1,5 +1,6 @@
 SPECIFICATION Spec
 CONSTANTS
+  Sample = 0
   NProg = 2
   Grid <- MCGrid
   Initials <- MCInitials2
